@@ -477,7 +477,7 @@ func genBacklogScript(rng *prng.R, backend string, capacity int) *c18prog {
 func c18scriptChild(raw json.RawMessage, scratch string) {
 	var ex c09extra
 	a := wk.ParseBatchArg(raw, &ex)
-	r := res.New("C18")
+	r := wk.ChildRes("C18")
 	base := prng.New(a.Seed).Split(0xC18)
 	for i := a.Start; i < a.End; i++ {
 		rng := base.Split(uint64(i))
@@ -702,7 +702,7 @@ func sub(a, b uint64) uint64 {
 func c18histChild(raw json.RawMessage, scratch string) {
 	var ex c09extra
 	a := wk.ParseBatchArg(raw, &ex)
-	r := res.New("C18")
+	r := wk.ChildRes("C18")
 	base := prng.New(a.Seed).Split(0xB18)
 	for i := a.Start; i < a.End; i++ {
 		rng := base.Split(uint64(i))
